@@ -104,7 +104,7 @@ def _compare(case, rec, got, style, rules, subs, tag):
                 f"({'same set, different order' if same_set else 'different set'}); config {dict((k2, case[k2]) for k2 in ('cache', 'cache_max', 'entry_jobs', 'rule_jobs', 'strategy', 'invert'))}",
             )
     rec.nt(len(nonempty) >= 2)
-    rec.label("has-lookalike-pair" if _has_lookalike(subs) else "no-lookalike-pair", f"distinct_nonempty={min(len(nonempty), 3)}", f"cache={case['cache']}", f"jobs={case['entry_jobs']}x{case['rule_jobs']}")
+    rec.label(f"rules={len(case['templates'])}", "has-lookalike-pair" if _has_lookalike(subs) else "no-lookalike-pair", f"distinct_nonempty={min(len(nonempty), 3)}", f"cache={case['cache']}", f"jobs={case['entry_jobs']}x{case['rule_jobs']}")
 
 
 def _has_lookalike(subs):
@@ -317,13 +317,14 @@ def batch_cases(draw, parallel=False, adversarial=False):
     style = draw(st.sampled_from(["explicit", "implicit"]))
     pool = pools[style]
     cls = centre_classes()
-    nt = draw(st.integers(1, 3))
+    # rule-parallel dispatch is only interesting with more rules than workers (chunking, uneven remainders)
+    nt = draw(st.integers(1, 3)) if not parallel else draw(st.sampled_from([1, 2, 3, 5, 7, 8, 9]))
     templates = draw(st.lists(st.sampled_from(pool), min_size=nt, max_size=nt, unique=True))
     # entries: own substrates of the templates, class mates (look-alikes), and arbitrary same-style substrates, with repeats
     cand = list(templates)
     for t in templates:
         cand += [j for j in cls.get(t, []) if j in pool][:6]
-    n = draw(st.integers(2, 8))
+    n = draw(st.integers(2, 8)) if nt <= 3 else draw(st.integers(2, 3))
     invert = draw(st.booleans())
 
     def applicable(j):
@@ -357,8 +358,9 @@ def batch_cases(draw, parallel=False, adversarial=False):
     case["cache"] = draw(st.booleans())
     case["as_dict"] = draw(st.booleans())
     if parallel:
-        case["entry_jobs"] = draw(st.sampled_from([1, 2, 4]))
-        case["rule_jobs"] = draw(st.sampled_from([1, 2, 4]))
+        case["rule_jobs"] = draw(st.sampled_from([1, 2, 3, 4]))
+        # rule-level parallelism is only active with a serial entry loop (allow_nested is False)
+        case["entry_jobs"] = 1 if case["rule_jobs"] > 1 and draw(st.booleans()) else draw(st.sampled_from([1, 2, 4]))
     else:
         case["entry_jobs"] = 1
         case["rule_jobs"] = 1
@@ -429,7 +431,7 @@ def strat_cluster(tier):
 SUBS = [
     Sub("batch_vs_solo", body_batch, strategy=strat_batch, examples={"quick": 320, "thorough": 6000}, shards={"quick": 16, "thorough": 16}, shrink=False),
     Sub("adversarial_id", body_adversarial_id, strategy=strat_adv, examples={"quick": 320, "thorough": 6000}, shards={"quick": 16, "thorough": 16}, shrink=False),
-    Sub("batch_parallel", body_batch, strategy=strat_batch_parallel, examples={"quick": 48, "thorough": 600}, shards={"quick": 3, "thorough": 4}, shrink=False),
+    Sub("batch_parallel", body_batch, strategy=strat_batch_parallel, examples={"quick": 90, "thorough": 900}, shards={"quick": 3, "thorough": 4}, shrink=False),
     Sub("parallel_validation", body_parallel_validation, strategy=strat_validation, examples={"quick": 48, "thorough": 600}, shards={"quick": 3, "thorough": 4}, shrink=False),
     Sub("syncrn_parallel", body_syncrn, strategy=strat_syncrn, examples={"quick": 30, "thorough": 300}, shards={"quick": 1, "thorough": 1}, shrink=False, serial=True),
     Sub("batch_clustering", body_cluster, strategy=strat_cluster, examples={"quick": 200, "thorough": 4000}, shards={"quick": 4, "thorough": 8}),
